@@ -18,6 +18,7 @@ pub fn scalars() -> Vec<RVal> {
         RVal::Other(0x10, vec![]), RVal::Other(0x12, vec![]), RVal::Other(0x43, vec![1, 2, 3]), RVal::Other(0x20, vec![0xff]),
         RVal::Lang(0x35, "en".into(), "hello".into()), RVal::Lang(0x35, "".into(), "".into()), RVal::Lang(0x36, "de-AT".into(), "".into()),
         RVal::Lang(0x36, "".into(), "x".into()),
+        RVal::Lang(0x36, "fr".into(), "B\u{fc}ro M\u{fc}ller \u{2713}".into()), RVal::Lang(0x35, "\u{65e5}\u{672c}".into(), "\u{3053}\u{3093}\u{306b}\u{3061}\u{306f}".into()),
     ];
     for tag in [0x30u8, 0x41, 0x42, 0x44, 0x45, 0x46, 0x47, 0x48, 0x49] {
         v.push(t(tag, "")); v.push(t(tag, "a")); v.push(t(tag, "héllo wörld ✓"));
